@@ -7,6 +7,7 @@ import (
 	"io"
 	"net/http"
 	"strings"
+	"time"
 
 	"google.golang.org/grpc/status"
 	"google.golang.org/protobuf/proto"
@@ -46,6 +47,12 @@ type Case struct {
 	EchoEvery int    `json:"echo_every,omitempty"` // reply after every k-th message
 	Interfere bool   `json:"interfere,omitempty"`  // unrelated request between receive and reply
 	Conc      int    `json:"concurrent,omitempty"` // > 1: that many copies of the stream run at the same time
+	// SrvOpt: server-option class of socket lanes ("", conn-timeout-small,
+	// conn-timeout-large, prefix). PaceMs: the client pauses that long
+	// between its messages. Members: gzip member layout of the body.
+	SrvOpt  string `json:"server_opt,omitempty"`
+	PaceMs  int    `json:"pace_ms,omitempty"`
+	Members string `json:"gzip_members,omitempty"`
 	// StopAfter > 0: the handler ends the call after that many messages.
 	StopAfter int `json:"stop_after,omitempty"`
 
@@ -63,6 +70,19 @@ func (c *Case) codecName() string {
 		n += "+" + c.CE
 	}
 	return n
+}
+
+func (c *Case) pathPrefix() string {
+	if c.SrvOpt == "prefix" {
+		return urlPrefix
+	}
+	return ""
+}
+
+func (c *Case) pace() {
+	if c.PaceMs > 0 {
+		time.Sleep(time.Duration(c.PaceMs) * time.Millisecond)
+	}
 }
 
 func (c *Case) isUpload() bool { return c.Shape == "upload" || c.Shape == "upbidi" }
